@@ -305,6 +305,23 @@ P("C17",
   assumptions=["Eigen dense LDLT / eigenvalues in double as the reference", "no float under/overflow: factors 2^-6..2^6 on values in [1e-3,1e4]"])
 
 
+P("C16",
+  rc={"quick": (12, 4000, 100, 8), "thorough": (14, 60000, 100, 8)},
+  budget={"quick": 150, "thorough": 1500},
+  rule="a DensityLegalizer is built either on generated disjoint row-like regions (split rows, missing rows, origin up to "
+       "2^20, bin size 1..3 row heights, 1..25 cells with 1 in 8 of zero demand) or through fromIspdCircuit on generated "
+       "circuits (obstructions, margins 0..1.5, bin factors 1..25, zero-size movable cells); then a state machine applies "
+       "1..25 operations drawn from refineX/Y, coarsenX/Y (guarded by their level preconditions), coarsenFully, refineFully, "
+       "refine, improve, run, new targets (inside / outside / coincident / huge) and setParams (every accepted rough-"
+       "legalization parameter set, six cost models, 1-D transport). After construction and after every operation: bin "
+       "limits span the area and are monotone; the capacity of every bin of the current view equals the free area of the "
+       "harness's own region list inside it (interval arithmetic) and the total is that free area; every cell of positive "
+       "demand is in exactly one bin with consistent cellBinX/Y, zero-demand cells in none; spread and simple coordinates "
+       "lie in the cell's bin +-2ulp. non-trivial = capacities are non-uniform and the history has a coarsen after a refine "
+       "and an improve/run; distinct = hash of regions, demands and history.",
+  assumptions=["side margin = floor(sideMargin * smallest positive cell height), the code's reading of 'standard cell height'"])
+
+
 # ----------------------------------------------------------------------------
 def sh(cmd, **kw):
     return subprocess.run(cmd, stdout=subprocess.PIPE, stderr=subprocess.STDOUT, text=True, **kw)
